@@ -236,6 +236,46 @@ func (w *neighWorld) trySend(dst tcpip.Address) {
 	payload := dmPayload(w.seed, w.nsent)
 	n, ch, err := w.ep.Write(tcpip.SlicePayload(append([]byte(nil), payload...)), tcpip.WriteOptions{To: &tcpip.FullAddress{Addr: dst, Port: 9000}})
 	w.Settle()
+	w.sendResult(dst, hop, payload, n, ch, err)
+	w.observe()
+}
+
+// trySend2: two goroutines send to the same next hop at the same moment (for a neighbour not looked up before, two
+// first lookups race); each is judged like a send of its own - both wait for the same answer, both are released
+func (w *neighWorld) trySend2(dst tcpip.Address) {
+	hop := dst
+	if !onLink4(dst) {
+		hop = gateway4
+	}
+	type res struct {
+		n       int64
+		ch      <-chan struct{}
+		err     *tcpip.Error
+		payload []byte
+	}
+	var r [2]res
+	done := make(chan int, 2)
+	for i := 0; i < 2; i++ {
+		w.nsent++
+		r[i].payload = dmPayload(w.seed, w.nsent)
+		i := i
+		go func() {
+			n, ch, err := w.ep.Write(tcpip.SlicePayload(append([]byte(nil), r[i].payload...)), tcpip.WriteOptions{To: &tcpip.FullAddress{Addr: dst, Port: 9000}})
+			r[i].n, r[i].ch, r[i].err = int64(n), ch, err
+			done <- i
+		}()
+	}
+	w.Settle()
+	<-done
+	<-done
+	w.Probes["two_sends_to_one_next_hop_at_the_same_moment"]++
+	for i := 0; i < 2; i++ {
+		w.sendResult(dst, hop, r[i].payload, uintptr(r[i].n), r[i].ch, r[i].err)
+	}
+	w.observe()
+}
+
+func (w *neighWorld) sendResult(dst, hop tcpip.Address, payload []byte, n uintptr, ch <-chan struct{}, err *tcpip.Error) {
 	switch {
 	case err == nil && int(n) == len(payload):
 		w.Probes["sends_completed"]++
@@ -257,7 +297,6 @@ func (w *neighWorld) trySend(dst tcpip.Address) {
 		}
 		w.Probes["sends_failed_no_link_address"]++
 	}
-	w.observe()
 }
 
 // poll retries the sends whose resolution has finished one way or the other.
@@ -338,7 +377,11 @@ func (w *neighWorld) apply(s Step) {
 		if s.B == 1 {
 			dst = offLink4
 		}
-		w.trySend(dst)
+		if s.C == 1 {
+			w.trySend2(dst)
+		} else {
+			w.trySend(dst)
+		}
 	case "reply":
 		// neighbour A (or the gateway if B==1) answers, optionally with a new link address
 		k := s.A % nNeigh
@@ -383,7 +426,16 @@ func (w *neighWorld) apply(s Step) {
 		if own {
 			w.learn(addr, mac) // requests addressed to the stack teach it the sender's mapping
 		}
-		w.arpFrom(1, mac, addr, tgt, "")
+		via := mac
+		if s.C == 1 {
+			// the request reaches the stack through a relay (bridge, proxy): the frame's source is the relay's
+			// link address, the requester's own is in the ARP sender field - which is what a reply names as target
+			via = tcpip.LinkAddress("\x02\xee\x00\x00\x00\x09")
+			w.Inject(w.S.Link, arp.ProtocolNumber, codec.EncodeARP(1, []byte(mac), []byte(addr), make([]byte, 6), []byte(tgt)), via, stackMAC, 0)
+			w.Probes["arp_requests_through_a_relay"]++
+		} else {
+			w.arpFrom(1, mac, addr, tgt, "")
+		}
 		var replies []*codec.ARP
 		var frames []*Frame
 		for _, d := range w.Seen {
@@ -406,8 +458,8 @@ func (w *neighWorld) apply(s Step) {
 				if !bytes.Equal(r.SHA, []byte(stackMAC)) || !bytes.Equal(r.SPA, []byte(tgt)) {
 					w.Fail("reply-wrong-content", "", "ARP reply says % x is at % x; the interface's link address is % x", r.SPA, r.SHA, []byte(stackMAC))
 				}
-				if !bytes.Equal(r.TPA, []byte(addr)) || !bytes.Equal(r.THA, []byte(mac)) || frames[0].DstMAC != mac {
-					w.Fail("reply-wrong-addressee", "", "ARP reply addressed to % x / % x (frame to % x), the requester is % x / % x", r.TPA, r.THA, []byte(frames[0].DstMAC), []byte(addr), []byte(mac))
+				if !bytes.Equal(r.TPA, []byte(addr)) || !bytes.Equal(r.THA, []byte(mac)) || frames[0].DstMAC != via {
+					w.Fail("reply-wrong-addressee", "", "ARP reply addressed to % x / % x (frame to % x), the requester is % x / % x (its frame came from % x)", r.TPA, r.THA, []byte(frames[0].DstMAC), []byte(addr), []byte(mac), []byte(via))
 				}
 			}
 		} else {
@@ -642,11 +694,11 @@ func (w *neighWorld) next(cfg NeighCfg) Step {
 	case 6:
 		return Step{Op: "send6", A: r.Intn(3), B: r.Intn(3), C: r.Intn(6)}
 	case 0:
-		return Step{Op: "send", A: r.Intn(nNeigh), B: r.Pick(4, 1)}
+		return Step{Op: "send", A: r.Intn(nNeigh), B: r.Pick(4, 1), C: r.Pick(5, 1)}
 	case 1:
 		return Step{Op: "reply", A: r.Intn(nNeigh), B: r.Pick(5, 1), C: r.Pick(5, 1), D: int64(r.Pick(6, 2, 1))}
 	case 2:
-		return Step{Op: "request", A: r.Intn(6), B: r.Intn(4)}
+		return Step{Op: "request", A: r.Intn(6), B: r.Intn(4), C: r.Pick(4, 1)}
 	case 3:
 		return Step{Op: "ns", A: r.Intn(3), B: r.Intn(2)}
 	case 4:
